@@ -39,7 +39,9 @@ func normCond(cond ssa.Value, pol bool) string {
 				op = negOp[op]
 			}
 			x, y := vstr(b.X), vstr(b.Y)
-			if x > y {
+			_, xc := b.X.(*ssa.Const)
+			_, yc := b.Y.(*ssa.Const)
+			if (xc && !yc) || (xc == yc && x > y) {
 				x, y = y, x
 				op = mirrorOp[op]
 			}
@@ -426,3 +428,66 @@ func joinKeys(m map[string]bool) string {
 }
 
 func joinStr(s []string) string { return strings.Join(s, ", ") }
+
+// HeldEdges returns every If edge of fn on which a condition whose
+// normalised rendering matches re holds (both polarities of every If are
+// considered: the true edge carries normCond(cond,true), the false edge
+// normCond(cond,false)).
+func HeldEdges(fn *ssa.Function, re string) []Edge {
+	rx := regexp.MustCompile(re)
+	var out []Edge
+	for _, b := range fn.Blocks {
+		iff := lastIf(b)
+		if iff == nil {
+			continue
+		}
+		if rx.MatchString(normCond(iff.Cond, true)) {
+			out = append(out, Edge{b, 0})
+		}
+		if rx.MatchString(normCond(iff.Cond, false)) {
+			out = append(out, Edge{b, 1})
+		}
+	}
+	return out
+}
+
+// DominatedByCond: every path from entry to an instruction of T takes an edge
+// on which a condition matching re holds.
+func (c *Ctx) DominatedByCond(rule string, fn *ssa.Function, condName, re string, T Ev, why string) bool {
+	inst := fname(fn) + ":" + condName + "⊢" + T.Name
+	c.Analysed[fname(fn)] = true
+	es := HeldEdges(fn, re)
+	if len(es) == 0 {
+		c.Fail(rule, inst, c.P.Pos(fn.Pos()), "no branch on condition "+condName+" (/"+re+"/) found in "+fname(fn)+": "+why)
+		return false
+	}
+	if T.Empty() {
+		c.Fail(rule, inst, c.P.Pos(fn.Pos()), "guarded construct "+T.Name+" not found in "+fname(fn)+": "+why)
+		return false
+	}
+	cut := NewCut().AddEdges(es...)
+	if hit := Reach(fn, nil, nil, anyOf(T.Ins), cut); hit != nil {
+		c.Fail(rule, inst, c.P.InstrPos(hit), T.Name+" is reachable without condition "+condName+" holding: "+why)
+		return false
+	}
+	c.OK(rule, inst, c.P.InstrPos(T.Ins[0]), "every path to "+T.Name+" takes a branch where "+condName+" holds")
+	return true
+}
+
+// SuccessRequiresCond: every success return of fn is reached through an edge
+// on which a condition matching re holds.
+func (c *Ctx) SuccessRequiresCond(rule string, fn *ssa.Function, condName, re, why string) bool {
+	return c.SuccessRequiresEdges(rule, fn, condName, HeldEdges(fn, re), why)
+}
+
+// CallsOfParam selects the dynamic calls in fn whose callee value is the
+// function-typed parameter with the given name.
+func CallsOfParam(fn *ssa.Function, name, param string) Ev {
+	ev := Ev{Name: name, Fn: fn}
+	for _, c := range callsIn(fn) {
+		if p, ok := c.Common().Value.(*ssa.Parameter); ok && p.Name() == param && !c.Common().IsInvoke() {
+			ev.Ins = append(ev.Ins, c)
+		}
+	}
+	return ev
+}
